@@ -8,7 +8,7 @@ From Coq Require Import List ZArith Bool Lia.
 Import ListNotations.
 From Goat Require Import Base.Bytes Model.WireFormat Model.Transports.
 From Goat Require Import Proofs.WireFormatProofs Proofs.TransportsProofs Proofs.TransportsWireProofs.
-From Goat Require Import Model.HttpLink Proofs.HttpLinkProofs.
+From Goat Require Import Model.HttpLink Proofs.HttpLinkProofs Proofs.WireFuel.
 Open Scope Z_scope.
 
 (* ---------- the wire format ---------- *)
@@ -241,6 +241,19 @@ Theorem C19_http_never_400_on_envelope : forall rt iv tmo now ls (s : hst rpc by
   ~ In (HEvResp q 400) (hs_log s).
 Proof. exact http_never_400_on_envelope. Qed.
 Print Assumptions C19_http_never_400_on_envelope.
+
+(* ---------- the decoder's fuel is always enough ---------- *)
+(* [fields] gives [fields_fuel] the length of the input as fuel: any larger fuel gives the same answer, so the out-of-fuel
+   branch (which answers None, like "undecodable") is never the one that answers - for EVERY byte string, not only for
+   encodings of canonical envelopes *)
+Theorem C19_decode_fuel_enough : forall b f, (length b <= f)%nat -> fields_fuel f b = fields b.
+Proof. exact decode_fuel_enough. Qed.
+Print Assumptions C19_decode_fuel_enough.
+
+(* likewise the fuel [dec_field] gives [skip_groups] at a start-group tag (one more than the length of what follows) *)
+Theorem C19_skip_groups_fuel_enough : forall b st f, (length b < f)%nat -> skip_groups f st b = skip_groups (S (length b)) st b.
+Proof. exact skip_groups_fuel_enough. Qed.
+Print Assumptions C19_skip_groups_fuel_enough.
 
 (* ---------- HTTP: the sending half (httpReadWriter.Write) linked to a receiving instance ---------- *)
 (* a request is answered 200 only with its delivery *)
